@@ -266,6 +266,7 @@ impl FsSys {
     }
 
     fn step(&mut self, op: Op) -> Result<(), Violation> {
+        crate::ops::set_all_tokio(self.cfg.name.ends_with("-tokio-front"));
         let _g = enter(&self.fs, self.now);
         let mk = |clause: &str, d: &Divergence, s: &FsSys| {
             Violation::new(clause, format!("after `{}`: {}", op.describe(), d.detail)).with_sig(format!(
